@@ -146,6 +146,24 @@ def scratch(tag):
     return d
 
 
+def apalache(module, init, inv, length, workdir, timeout=600):
+    """One Apalache bounded check of spec/<module>.tla (used for inductive invariants: base step and induction step). Returns (ok, output)."""
+    out = os.path.join(workdir, "apalache-%s-%s-%s" % (module, init, inv))
+    os.makedirs(out, exist_ok=True)
+    cmd = ["apalache-mc", "check", "--init=" + init, "--inv=" + inv, "--length=%d" % length, "--out-dir=" + out, os.path.join(SPEC, module + ".tla")]
+    try:
+        p = subprocess.run(cmd, cwd=out, capture_output=True, text=True, timeout=timeout)
+    except subprocess.TimeoutExpired:
+        raise MachineryError("apalache-mc timed out on %s (%s => %s)" % (module, init, inv))
+    txt = p.stdout + p.stderr
+    shutil.rmtree(out, ignore_errors=True)
+    if "EXITCODE: OK" in txt:
+        return True, txt
+    if "EXITCODE: ERROR (12)" in txt or "violation" in txt.lower():
+        return False, txt
+    raise MachineryError("apalache-mc failed on %s:\n%s" % (module, txt[-2000:]))
+
+
 def tlc(module, cfg, workdir, workers=NCPU, env=None, timeout=1800, heap="8g", extra=(), stdout_file=None, dfs=False, simulate=None):
     """Run TLC on spec/<module>.tla with config text `cfg` (a string) inside workdir."""
     cfgp = os.path.join(workdir, module + ".cfg")
